@@ -94,6 +94,12 @@ type Store struct {
 	// IgnoreCtx: serve loads even under a finished context (a local store
 	// that never looks at it); default: honour it, as a network-backed one does
 	IgnoreCtx bool
+	// Corrupt: blocks served with altered bytes (only a link system that
+	// verifies what it loads -- Verify -- notices)
+	Corrupt map[string]bool
+	// Verify: LinkSystem() leaves TrustedStorage off, so every load is checked
+	// against its CID as cidlink.DefaultLinkSystem() does
+	Verify bool
 	// Missing: static set of withheld blocks.
 	Missing map[string]ErrKind
 	// OnRead, when set, is asked before every read (after Missing); a non-nil
@@ -215,6 +221,16 @@ func (s *Store) read(c cid.Cid) (io.Reader, error) {
 	if !ok {
 		return nil, notFoundErr{c}
 	}
+	s.mu.Lock()
+	bad := s.Corrupt[key(c)]
+	s.mu.Unlock()
+	if bad {
+		// the block is there but its bytes are not what its CID promises
+		// (bit rot, a lying peer): one byte more than stored, first byte flipped
+		cb := append(append([]byte{}, b...), 0x00)
+		cb[0] ^= 0xff
+		return bytes.NewReader(cb), nil
+	}
 	return bytes.NewReader(b), nil
 }
 
@@ -242,7 +258,7 @@ func (w *wr) Write(p []byte) (int, error) {
 // LinkSystem returns a fresh default link system wired to this store.
 func (s *Store) LinkSystem() *ipld.LinkSystem {
 	ls := cidlink.DefaultLinkSystem()
-	ls.TrustedStorage = true
+	ls.TrustedStorage = !s.Verify
 	ls.StorageReadOpener = func(lc linking.LinkContext, l datamodel.Link) (io.Reader, error) {
 		cl, ok := l.(cidlink.Link)
 		if !ok {
